@@ -102,6 +102,8 @@ class Check:
             self.tier = "quick"
         self.seed = int(seed if seed is not None else os.environ.get("VERIF_SEED", "1"))
         self.rng = random.Random("%s-%d" % (prop, self.seed))
+        CLI_RNG.seed("cli-%s-%d" % (prop, self.seed))
+        CLI_COUNTS.clear()
         try:
             import gen
             gen.QUIRK_RNG = random.Random("quirks-%s-%d" % (prop, self.seed))
@@ -256,6 +258,8 @@ class Check:
                 self.hist["quirk:" + k] = v
         except ImportError:
             pass
+        for k, v in CLI_COUNTS.items():
+            self.hist["entry:" + k] = v
         cov = {
             "obligations": len(self.obligations),
             "discharged": len(self.discharged),
@@ -285,6 +289,100 @@ class Check:
             "OK" if rc == 0 else "FAIL", self.prop, self.tier, self.seed, len(self.discharged), len(self.obligations),
             self.evaluations, len(self.nontrivial), len(self.violations), len(self.broken), wall))
         return rc
+
+
+
+# ---------------------------------------------------------------------------------------------------- the tool's entry points
+CLI_RNG = random.Random("cli")
+CLI_COUNTS = {}
+CLI_SHARE = 0.3
+
+
+def _argv(sub, kw):
+    """the command line that the documentation gives for the call `sub(**kw)`"""
+    a = [sub]
+    opt = lambda flag, v: a.extend([flag, str(v)]) if v is not None else None
+    if sub == "index":
+        a += [kw["gaf_path"], kw["gfa_path"]]
+        opt("-o", kw.get("output"))
+    elif sub == "view":
+        a.append(kw["gaf_path"])
+        opt("-g", kw.get("gfa"))
+        opt("-o", kw.get("output"))
+        opt("-i", kw.get("index"))
+        for n in kw.get("nodes") or []:
+            a += ["-n", n]
+        for r in kw.get("regions") or []:
+            a += ["-r", r]
+        opt("-f", kw.get("format"))
+    elif sub == "sort":
+        a += [kw["gaf"], kw["gfa"]]
+        opt("--outgaf", kw.get("outgaf"))
+        opt("--outind", kw.get("outind"))
+        if kw.get("bgzip"):
+            a.append("--bgzip")
+    elif sub == "stat":
+        a.append(kw["gaf_path"])
+        opt("-o", kw.get("output"))
+        if kw.get("cigar_stat"):
+            a.append("--cigar")
+    elif sub == "phase":
+        a += [kw["gaf_file"], kw["tsv_file"]]
+        opt("-o", kw.get("output"))
+    elif sub == "realign":
+        a += [kw["gaf"], kw["graph"], kw["fasta"]]
+        opt("-o", kw.get("output"))
+        opt("-c", kw.get("cores"))
+    elif sub == "find_path":
+        a += [kw["gfa_path"], kw["input_path"]]
+        opt("-o", kw.get("output"))
+        if kw.get("fasta"):
+            a.append("--fasta")
+    elif sub == "order_gfa":
+        if kw.get("chromosome_order"):
+            a += ["--chromosome_order", kw["chromosome_order"]]
+        if kw.get("with_sequence"):
+            a.append("--with-sequence")
+        a += ["--outdir", kw["outdir"]]
+        if kw.get("by_chrom"):
+            a.append("--by-chrom")
+        a.append(kw["gfa_filename"])
+    else:
+        raise HarnessError("no command line known for %s" % sub)
+    return a
+
+
+def tool(sub, via_cli=None, **kw):
+    """one call of sub-command `sub` of the real tool, either through its Python entry point (`view.run`, `run_sort`, ...) or -
+    for a share of the calls, drawn from a PRNG stream of its own - through the command line (`gaftools.__main__.main(argv)`,
+    in-process: argument parser, `validate`, `main(args)` of the sub-command). Exceptions and `SystemExit` propagate as they
+    come; the one translation: `view` reports "nothing found" by CommandLineError, which the command line turns into exit
+    status 1 - it is raised again as CommandLineError so that callers see one outcome for both routes."""
+    if via_cli is None:
+        via_cli = CLI_RNG.random() < CLI_SHARE
+    CLI_COUNTS[("cli:" if via_cli else "api:") + sub] = CLI_COUNTS.get(("cli:" if via_cli else "api:") + sub, 0) + 1
+    if via_cli:
+        from gaftools.__main__ import main as gmain
+        from gaftools.cli import CommandLineError
+        root = logging.getLogger()
+        before = list(root.handlers)
+        try:
+            gmain(_argv(sub, kw))
+        except SystemExit as e:
+            if sub == "view" and e.code == 1:
+                raise CommandLineError("exit status 1 from the command line")
+            if e.code not in (0, None):
+                raise
+        finally:
+            for h in list(root.handlers):
+                if h not in before:
+                    root.removeHandler(h)
+        return None
+    import importlib
+    mod = importlib.import_module("gaftools.cli." + sub)
+    fn = {"index": "run", "view": "run", "sort": "run_sort", "stat": "run_stat", "phase": "run", "realign": "run_realign",
+          "find_path": "run", "order_gfa": "run_order_gfa"}[sub]
+    return getattr(mod, fn)(**kw)
 
 
 class ImplHang(BaseException):
